@@ -519,3 +519,9 @@ TEXT["C01"]["level_text"] += (" The record-level laws (apply = join, monotone, c
                               "are additionally discharged by Apalache for ALL generations and incarnations in 0..65535 at once "
                               "(spec/ApaC01.tla, symbolic).")
 TEXT["C01"]["technique"] += " + Apalache (record-level laws over the full u16 range)"
+
+# complete (non-lite) traces of the fault drivers: per-node one-step conformance under crash / leave / partition / renewal
+PROPS["C03"]["drivers"]["quick"].append(cl_full("c03", ["--maxruns", "150"], 1))
+PROPS["C03"]["drivers"]["thorough"].append(cl_full("c03", ["--maxruns", "600"], 2))
+PROPS["C05"]["drivers"]["quick"].append(cl_full("c05", ["--maxruns", "24"], 1))
+PROPS["C05"]["drivers"]["thorough"].append(cl_full("c05", ["--maxruns", "80"], 3))
